@@ -182,16 +182,21 @@ def _args(elt, spec, vals):
         elif k == 'n': toks.append(str(v)); coq.append(str(v))
     return " ".join(toks), " ".join(coq)
 
-KINDS = {   # kind -> (argument spec, Gallina runner)
+KINDS = {   # kind -> (argument spec, Gallina runner [, how the Gallina arguments are formed from the executor's])
     "ring": ("ppss", "run_ring"), "calc": ("ppssn", "run_calc"), "access": ("pns", "run_access"),
     "ctor": ("ssss", "run_ctor"), "div": ("pp", "run_div"),
+    # u.polydiv(&u), dividend and divisor the same object: the model has no objects, its twin is run_div u u
+    "divself": ("p", "run_div", lambda c: c + " " + c),
+    # histories (index-assign / trim / coeffs() followed by the views and operators): search-only, no Gallina twin
+    "hist": ("ppns", None),
 }
 
 def mk_case(elt, kind, vals, family, nontrivial=True, tol=1e-12, with_term=True):
-    spec, runner = KINDS[kind]
+    spec, runner = KINDS[kind][:2]
     t, c = _args(elt, spec, vals)
+    if len(KINDS[kind]) > 2: c = KINDS[kind][2](c)
     line = "poly.%s %s" % (kind, t)
-    term = "@%s %s %s %s" % (runner, ARITH[elt], FLAT[elt], c) if with_term else None
+    term = "@%s %s %s %s" % (runner, ARITH[elt], FLAT[elt], c) if (with_term and runner) else None
     jv = []
     for k, v in zip(spec, vals):
         jv.append(enc_poly(elt, v) if k == 'p' else (enc(elt, v) if k == 's' else v))
@@ -214,6 +219,82 @@ def case_from_json_common(j, kinds):
     c = mk_case(elt, kind, vals, "corpus")
     if meta.get("approx"): c.meta["approx"] = True
     return c
+
+# ------------------------------------------------------------------ special values and structured operands
+# Mutations of the code exploit values exactly 0 / 1 / -1 / +-i, entries on an axis, operands that are equal or
+# otherwise related, all-zero and one-term operands: classes a random draw produces rarely or never.  All values
+# below are small dyadic numbers: every intermediate of + - * and of Horner's rule stays exactly representable.
+def special_scalars(elt):
+    if elt == 'rat':
+        return [Fraction(0), Fraction(1), Fraction(-1), Fraction(2), Fraction(1, 2), Fraction(-2), Fraction(-1, 2), Fraction(3)]
+    if elt == 'f64':
+        return [0.0, -0.0, 1.0, -1.0, 2.0, 0.5, -2.0, -0.5, 3.0]
+    if elt == 'cplx':
+        return [complex(0.0, 0.0), complex(-0.0, 0.0), complex(0.0, -0.0), complex(1.0, 0.0), complex(-1.0, 0.0), complex(0.0, 1.0),
+                complex(0.0, -1.0), complex(2.0, 0.0), complex(0.0, 2.0), complex(0.0, -3.0), complex(-3.0, 0.0), complex(0.5, 0.0), complex(0.0, 0.5),
+                complex(1.0, 1.0), complex(1.0, -1.0), complex(-2.0, 2.0)]
+    raise ValueError(elt)
+
+def conv(elt, x):
+    """an integer / dyadic Fraction as a scalar of the element kind"""
+    if elt == 'rat': return Fraction(x)
+    if elt == 'f64': return float(x)
+    return complex(float(x), 0.0)
+
+def scal_mul(elt, a, b):
+    """product of two scalars of the kind (exact for the small dyadic values used here)"""
+    if elt == 'rat': return Fraction(a) * Fraction(b)
+    if elt == 'f64': return float(a) * float(b)
+    return complex(a) * complex(b)
+
+def scal_neg(elt, a):
+    if elt == 'rat': return -Fraction(a)
+    if elt == 'f64': return -float(a)
+    a = complex(a); return complex(-a.real, -a.imag)
+
+STRUCTS = ("all-zero", "monomial", "lead-zeros", "interior-zeros", "all-ones", "alternating", "all-equal", "neg-zeros", "axis")
+
+def struct_poly(rng, elt, n, cls):
+    """a polynomial of n coefficients (n >= 1) of the structural class cls"""
+    z = conv(elt, 0)
+    nz = lambda: rng.choice([v for v in special_scalars(elt) if v != 0])
+    if cls == "all-zero": return [z] * n
+    if cls == "monomial": return [z] * (n - 1) + [nz()]
+    if cls == "lead-zeros":            # two or more vanishing leading coefficients (one when n = 2)
+        k = min(n - 1, rng.range(2, 3)) if n > 1 else 0
+        return [sval(rng, elt) for _ in range(n - k)] + [z] * k
+    if cls == "interior-zeros":        # first and last coefficient non-zero, everything between them zero
+        return [nz()] + [z] * (n - 2) + [nz()] if n > 1 else [nz()]
+    if cls == "all-ones": return [conv(elt, 1)] * n
+    if cls == "alternating": return [conv(elt, 1 if i % 2 == 0 else -1) for i in range(n)]
+    if cls == "all-equal":
+        c = nz(); return [c] * n
+    if cls == "neg-zeros":             # zeros of either sign among the coefficients, the leading one included (floats)
+        if elt == 'rat': return [sval(rng, elt) if rng.chance(1, 2) else z for _ in range(n)]
+        mz = -0.0 if elt == 'f64' else rng.choice([complex(-0.0, 0.0), complex(0.0, -0.0), complex(-0.0, -0.0)])
+        return [(sval(rng, elt) if rng.chance(1, 3) else (mz if rng.chance(2, 3) else z)) for _ in range(n - 1)] + [mz]
+    if cls == "axis":                  # every coefficient from the special menu (for Complex: on the axes, +-i, 1+-i)
+        return [rng.choice(special_scalars(elt)) for _ in range(n)]
+    raise ValueError(cls)
+
+RELATIONS = ("equal", "negated", "scaled", "shifted", "reversed", "derivative", "one-differs")
+
+def related_poly(rng, elt, p, rel):
+    """a second operand that stands in the relation rel to p (a separate object with related VALUES)"""
+    z = conv(elt, 0)
+    if rel == "equal": return list(p)
+    if rel == "negated": return [scal_neg(elt, a) for a in p]
+    if rel == "scaled":
+        c = rng.choice([v for v in special_scalars(elt) if v != 0 and v != 1]); return [scal_mul(elt, a, c) for a in p]
+    if rel == "shifted": return [z] * rng.range(1, 2) + list(p)       # x^k * p
+    if rel == "reversed": return list(reversed(p))
+    if rel == "derivative": return [scal_mul(elt, p[i + 1], conv(elt, i + 1)) for i in range(len(p) - 1)]
+    if rel == "one-differs":
+        q = list(p)
+        if q:
+            k = rng.below(len(q)); q[k] = q[k] + conv(elt, 1)
+        return q
+    raise ValueError(rel)
 
 # ------------------------------------------------------------------ value menus
 def small_int(rng, lo=-6, hi=6, pzero=(1, 6)):
